@@ -1,2 +1,136 @@
-(* C05 - property theorems only. *)
-From HV Require Import Prelude Tracts BpText C05_Model C05_Check C05_Proofs C05_ProofsText.
+(* C05 - property theorems only (proofs: C05_Proofs, C05_ProofsCodec, C05_ProofsText). *)
+From HV Require Import Prelude Tracts BpText C05_Model C05_Check C05_Proofs C05_ProofsCodec C05_ProofsText.
+
+(* _find_blocks returns, for every position, the index i of the first end >= it
+   (ends[i] >= p, every earlier end < p); it raises iff some position has no such end *)
+Theorem C05_find_blocks_spec :
+  forall ends ps,
+  match find_blocks ends ps with
+  | Ok idx =>
+      Forall2 (fun p i => exists e, nth_error ends i = Some e /\ p <= e /\
+                          forall j e', (j < i)%nat -> nth_error ends j = Some e' -> e' < p) ps idx
+  | Err k => k = E_Value /\ exists p, In p ps /\ forall e, In e ends -> e < p
+  end.
+Proof. exact find_blocks_spec. Qed.
+Print Assumptions C05_find_blocks_spec.
+
+(* ... which on an ascending array means: iff some position is beyond the last end *)
+Theorem C05_find_blocks_error_iff_beyond_last :
+  forall ends ps l, ascending ends = true -> last_opt ends = Some l ->
+  ((exists k, find_blocks ends ps = Err k) <-> exists p, In p ps /\ l < p).
+Proof. exact find_blocks_error_iff_beyond_last. Qed.
+Print Assumptions C05_find_blocks_error_iff_beyond_last.
+
+(* the chromosome-wise searchsorted + scatter of population_array is, cell by cell, the
+   label of the first block on the variant's chromosome whose end is >= its position *)
+Theorem C05_strand_row_cellwise :
+  forall blocks vs,
+  strand_row blocks vs =
+  mapM (fun v => match label_at blocks (vchrom v) (vpos v) with Some l => Ok l | None => Err E_Value end) vs.
+Proof. exact strand_row_cellwise. Qed.
+Print Assumptions C05_strand_row_cellwise.
+
+(* row k of the answer belongs to the k-th *requested* sample and cell (k, v, t) is the
+   covering block's label on strand t; an unknown sample, an uncovered position or an absent
+   chromosome is an error, never an answer *)
+Theorem C05_population_array_spec :
+  forall d vs req, NoDup req ->
+  match population_array d vs (Some req) with
+  | Ok arr =>
+      Forall2 (fun s row => exists sb, zassoc s d = Some sb /\
+        Forall2 (fun v c => label_at (fst sb) (vchrom v) (vpos v) = Some (fst c) /\
+                            label_at (snd sb) (vchrom v) (vpos v) = Some (snd c)) vs row) req arr
+  | Err k =>
+      (k = E_Key /\ exists s, In s req /\ zassoc s d = None) \/
+      (k = E_Value /\ exists s sb, In s req /\ zassoc s d = Some sb /\
+         exists v, In v vs /\ (label_at (fst sb) (vchrom v) (vpos v) = None \/
+                               label_at (snd sb) (vchrom v) (vpos v) = None))
+  end.
+Proof. exact population_array_spec. Qed.
+Print Assumptions C05_population_array_spec.
+
+Theorem C05_population_array_all_spec :
+  forall d vs,
+  match population_array d vs None with
+  | Ok arr => Forall2 (fun nsb row => cells_ok (snd nsb) vs row) d arr
+  | Err k => k = E_Value /\ exists nsb, In nsb d /\ uncovered_cell (snd nsb) vs
+  end.
+Proof. exact population_array_all_spec. Qed.
+Print Assumptions C05_population_array_all_spec.
+
+(* decoding restores the data, for every order of distinct given labels *)
+Theorem C05_encode_recode_id :
+  forall d given,
+  (match given with Some g => NoDup g | None => True end) ->
+  (forall nsb, In nsb d -> fst (snd nsb) <> [] /\ snd (snd nsb) <> []) ->
+  exists st', encode given (mkbp d None) = Ok st' /\ recode st' = Ok (mkbp d None).
+Proof. exact encode_recode_id. Qed.
+Print Assumptions C05_encode_recode_id.
+
+Theorem C05_encode_recode_example :
+  let d := [(0, ([mkseg 7 1 10122 3], [mkseg 8 1 10115 0; mkseg 7 1 10116 1; mkseg 9 1 10120 2; mkseg 7 1 10122 3]))] in
+  exists st', encode (Some [9; 8; 7]) (mkbp d None) = Ok st' /\
+              blabels st' = Some [(9, 0); (8, 1); (7, 2)] /\ recode st' = Ok (mkbp d None).
+Proof. exact encode_recode_example. Qed.
+Print Assumptions C05_encode_recode_example.
+
+(* encoded queries return the codes of the same labels, and the same errors *)
+Theorem C05_encoded_lookup_commutes :
+  forall d given st' vs req,
+  encode given (mkbp d None) = Ok st' ->
+  exists labels, blabels st' = Some labels /\
+    (forall p, In p (pops_of d) -> zassoc p labels <> None) /\
+    bdata st' = map_table (code_of labels) d /\
+    population_array (bdata st') vs req =
+      rmap (map (map (pair_map (code_of labels)))) (population_array d vs req).
+Proof. exact encoded_lookup_commutes. Qed.
+Print Assumptions C05_encoded_lookup_commutes.
+
+(* reading what write() wrote gives the data back: samples, order, labels, chromosomes,
+   positions, cM values - for sample names with arbitrary underscores *)
+Theorem C05_bp_roundtrip :
+  forall (parse_int parse_flt : str -> res Z) (fmt_int fmt_flt : Z -> str) (d : ctable),
+  Forall (wf_sample parse_int parse_flt fmt_int fmt_flt) d -> NoDup (map fst d) ->
+  bp_read parse_int parse_flt None (bp_write fmt_int fmt_flt d) = Ok d.
+Proof. exact bp_roundtrip. Qed.
+Print Assumptions C05_bp_roundtrip.
+
+Theorem C05_bp_roundtrip_example :
+  let d : ctable := [([97; 95; 98], ([mkcb [89] [49] 10 7; mkcb [67] [49] 20 8], [mkcb [67] [49] 20 8]));
+                     ([], ([], [mkcb [] [] 0 0]))] in
+  Forall (wf_sample toy_parse toy_parse toy_fmt toy_fmt) d /\ NoDup (map fst d) /\
+  bp_read toy_parse toy_parse None (bp_write toy_fmt toy_fmt d) = Ok d.
+Proof. exact bp_roundtrip_example. Qed.
+Print Assumptions C05_bp_roundtrip_example.
+
+(* soundness of the boolean checkers evaluated on the implementation's output *)
+Theorem C05_holds_find_sound :
+  forall ends ps obs,
+  holds_find (mkf ends ps obs) = true -> ascending ends = true ->
+  match obs with
+  | Ok idx => Forall2 (fun p i => exists e, nthZ ends i = Some e /\ p <= e /\
+                         forall e', In e' (firstn (Z.to_nat i) ends) -> e' < p) ps idx
+  | Err _ => exists p, In p ps /\ forall e, In e ends -> e < p
+  end.
+Proof. exact holds_find_sound. Qed.
+Print Assumptions C05_holds_find_sound.
+
+Theorem C05_holds_lookup_sound :
+  forall d vs req obs,
+  holds_lookup_gen d vs (Some req) obs = true -> nodupb req = true -> nodupb (map fst d) = true ->
+  match obs with
+  | Ok arr => Forall2 (fun s row => exists sb, zassoc s d = Some sb /\ cells_ok sb vs row) req arr
+  | Err _ => exists s, In s req /\ (zassoc s d = None \/ exists sb, zassoc s d = Some sb /\ uncovered_cell sb vs)
+  end.
+Proof. exact holds_lookup_sound. Qed.
+Print Assumptions C05_holds_lookup_sound.
+
+Theorem C05_holds_write_sound :
+  forall k, holds_write k = true -> write_domain (w_tbl k) = true -> w_reread k = Ok (w_tbl k).
+Proof. exact holds_write_sound. Qed.
+Print Assumptions C05_holds_write_sound.
+
+Theorem C05_holds_codec_sound :
+  forall k, holds_codec k = true -> codec_domain k = true -> e_rec k = Ok (e_tbl k).
+Proof. exact holds_codec_sound. Qed.
+Print Assumptions C05_holds_codec_sound.
